@@ -36,6 +36,7 @@ extern "C" void c14_clone()
   Value& ci = cl->loadVariable(0);
   verif_assert(ci.type() == Value::type_integer && ci.isNull() == inull && (inull || *ci.integer() == i0), "C14: cloned integer variable has the original's value");
   verif_assert(&ci != &ctx.loadVariable(0) && cl->_storage_pool[0].symbol != ctx._storage_pool[0].symbol, "C14: clone and original share neither variable storage nor symbol objects");
+  verif_assert(ci.lvalue(), "C14/C05: a variable inherited by a clone is owned by its slot like any variable (reading it in the clone copies, never consumes it)");
   cl->storeVariable(0, Value(Integer(i1)));
   { Value& oi = ctx.loadVariable(0); verif_assert(oi.isNull() == inull && (inull || *oi.integer() == i0), "C14: a store in the clone does not change the original's variable"); }
   ctx.storeVariable(0, Value(Integer(7)));
